@@ -98,6 +98,13 @@ func (fx *FnCtx) defineFresh(v ssa.Value) Term {
 
 // resolveAddr turns an address-valued SSA value into a location (with obligations for nil/bounds).
 func (fx *FnCtx) resolveAddr(addr ssa.Value) *Loc {
+	if u, ok := addr.(*ssa.UnOp); ok && u.Op == token.MUL {
+		if al, ok := u.X.(*ssa.Alloc); ok {
+			if tgt := fx.aliasCellTarget(al); tgt != nil {
+				return fx.resolveAddr(tgt)
+			}
+		}
+	}
 	switch a := addr.(type) {
 	case *ssa.Alloc:
 		if !a.Heap {
@@ -125,6 +132,120 @@ func (fx *FnCtx) resolveAddr(addr ssa.Value) *Loc {
 		}
 	}
 	return &Loc{kind: locPtr, base: fx.val(addr), rootT: deref(addr.Type())}
+}
+
+
+// aliasCellTarget: a local pointer variable that is assigned exactly once, with the address of a slice element or
+// of a field reached from one (com := &line.Suffix[0]), and otherwise only loaded, in blocks dominated by that
+// assignment, is an alias for that address: loads of it resolve to the address itself instead of producing an
+// interior pointer value (which the value model cannot represent).
+func (fx *FnCtx) aliasCellTarget(a *ssa.Alloc) ssa.Value {
+	if a.Heap || a.Referrers() == nil {
+		return nil
+	}
+	if v, ok := fx.aliasCells[a]; ok {
+		return v
+	}
+	fx.aliasCells[a] = nil
+	if _, ok := deref(a.Type()).Underlying().(*types.Pointer); !ok {
+		return nil
+	}
+	var store *ssa.Store
+	var loads []*ssa.UnOp
+	for _, r := range *a.Referrers() {
+		switch u := r.(type) {
+		case *ssa.Store:
+			if u.Addr != a || store != nil {
+				return nil
+			}
+			store = u
+		case *ssa.UnOp:
+			if u.Op != token.MUL {
+				return nil
+			}
+			loads = append(loads, u)
+		case *ssa.DebugRef:
+		default:
+			return nil
+		}
+	}
+	if store == nil {
+		return nil
+	}
+	root := store.Val
+	for {
+		if fa, ok := root.(*ssa.FieldAddr); ok {
+			root = fa.X
+			continue
+		}
+		break
+	}
+	if _, ok := root.(*ssa.IndexAddr); !ok {
+		return nil
+	}
+	for _, l := range loads {
+		if l.Block() == store.Block() {
+			before := false
+			for _, in := range l.Block().Instrs {
+				if in == ssa.Instruction(store) {
+					before = true
+					break
+				}
+				if in == ssa.Instruction(l) {
+					break
+				}
+			}
+			if !before {
+				return nil
+			}
+		} else if !store.Block().Dominates(l.Block()) {
+			return nil
+		}
+		// a loaded alias may only be used to reach memory (field addresses, loads, stores through it)
+		if !isAddrOnlyUse(l) {
+			return nil
+		}
+	}
+	fx.aliasCells[a] = store.Val
+	return store.Val
+}
+
+// isAliasLoad: v is a load of an alias cell (an element address, never nil)
+func (fx *FnCtx) isAliasLoad(v ssa.Value) bool {
+	if u, ok := v.(*ssa.UnOp); ok && u.Op == token.MUL {
+		if al, ok := u.X.(*ssa.Alloc); ok {
+			return fx.aliasCellTarget(al) != nil
+		}
+	}
+	return false
+}
+
+// onlyAliasStores: every use of the address v that is not an address-only use stores it into an alias cell
+func (fx *FnCtx) onlyAliasStores(v ssa.Value) bool {
+	refs := v.Referrers()
+	if refs == nil {
+		return true
+	}
+	for _, r := range *refs {
+		switch u := r.(type) {
+		case *ssa.UnOp:
+			if u.Op != token.MUL {
+				return false
+			}
+		case *ssa.Store:
+			if u.Addr == v {
+				continue
+			}
+			al, ok := u.Addr.(*ssa.Alloc)
+			if !ok || u.Val != v || fx.aliasCellTarget(al) == nil {
+				return false
+			}
+		case *ssa.FieldAddr, *ssa.IndexAddr, *ssa.DebugRef, *ssa.Slice:
+		default:
+			return false
+		}
+	}
+	return true
 }
 
 func isAddrOnlyUse(v ssa.Value) bool {
@@ -183,6 +304,9 @@ func (fx *FnCtx) instr(in ssa.Instruction) {
 			fx.assume(eq(app(gs, "select", h, ref), P.sorts.zero(gt)))
 		}
 	case *ssa.Store:
+		if al, ok := x.Addr.(*ssa.Alloc); ok && fx.aliasCellTarget(al) != nil {
+			return // the variable is an alias for the stored address (see aliasCellTarget)
+		}
 		l := fx.resolveAddr(x.Addr)
 		for _, c := range l.comps(P) {
 			if fvs, ok := fx.cellOnly[c]; ok {
@@ -213,14 +337,14 @@ func (fx *FnCtx) instr(in ssa.Instruction) {
 	case *ssa.BinOp:
 		fx.binop(x)
 	case *ssa.FieldAddr:
-		if _, isAddr := x.X.(*ssa.Alloc); !isAddr {
+		if _, isAddr := x.X.(*ssa.Alloc); !isAddr && !fx.isAliasLoad(x.X) {
 			if _, ok := x.X.(*ssa.FieldAddr); !ok {
 				if _, ok := x.X.(*ssa.IndexAddr); !ok {
 					fx.oblig("safe.nil", not(eq(fx.val(x.X), Term{"0", "Int"})), "nil dereference at field "+fieldName(x), nil, "")
 				}
 			}
 		}
-		if !isAddrOnlyUse(x) {
+		if !isAddrOnlyUse(x) && !fx.onlyAliasStores(x) {
 			if _, ok := fx.resolveAddr(x).addrOf(); !ok {
 				fx.escapingInterior(x)
 			}
@@ -236,7 +360,7 @@ func (fx *FnCtx) instr(in ssa.Instruction) {
 			i := fx.val(x.Index)
 			fx.oblig("safe.idx", and(app("Bool", "<=", Term{"0", "Int"}, i), app("Bool", "<", i, intLit(n))), "array index in range", nil, "")
 		}
-		if !isAddrOnlyUse(x) {
+		if !isAddrOnlyUse(x) && !fx.onlyAliasStores(x) {
 			fx.escapingInterior(x)
 		}
 	case *ssa.Field:
@@ -470,6 +594,9 @@ func (fx *FnCtx) unop(x *ssa.UnOp) {
 	st := fx.cur
 	switch x.Op {
 	case token.MUL:
+		if al, ok := x.X.(*ssa.Alloc); ok && fx.aliasCellTarget(al) != nil {
+			return // resolved where it is used as an address
+		}
 		l := fx.resolveAddr(x.X)
 		if l.kind == locPtr {
 			if _, isAlloc := x.X.(*ssa.Alloc); !isAlloc {
